@@ -12,10 +12,17 @@ CONSTANTS
   ONF = 2
   ONFs = {2}
   OthCorpora <- OthAll
-  Ghosts <- NoGhost
+  NRep = 1
+  StartVecs <- AccFirst
+  StartRule = "every"
   DoneRule = "all"
   EmitVec = FALSE
   Emit = FALSE
+  EmitStartVec = FALSE
+  Pars = {1}
+  NOcc = 0
+  CrashPoints = "any"
+  PersistAt = "start"
 INVARIANT TypeOK
 INVARIANT DoneImpliesSyncResult
 INVARIANT SyncIsRef
